@@ -206,6 +206,7 @@ theorem scanStep_inv (e : Eng) (ev : EvalRule) (hwf : WF e) (hloc : Local e ev) 
             · exact Or.inl (Or.inr ⟨h1, h2⟩)
 
 /-- C01 / C10 core, for any candidate order and any sharing of dependencies -/
+-- (statement below; the ordered error record is `scan_errs_eq`)
 theorem scan_correct (e : Eng) (ev : EvalRule) (hwf : WF e) (hloc : Local e ev) (cands : List Nat) :
     ScanInv e ev cands (scan e ev cands) := by
   unfold scan
@@ -220,4 +221,98 @@ theorem scan_correct (e : Eng) (ev : EvalRule) (hwf : WF e) (hloc : Local e ev) 
       simpa [List.append_assoc] using this
   have h0 : ScanInv e ev [] ⟨[], [], []⟩ := ⟨by intro d b h; simp [look] at h, by simp, by simp⟩
   simpa using this cands [] _ h0
+/-! ### the error record as a list: which rule is recorded last -/
+
+/-- the errors one candidate contributes, in the order they are raised: its listed dependencies with an
+    erroring verdict (in list order), then the candidate itself -/
+def errsOf (e : Eng) (ev : EvalRule) (i : Nat) : List Nat :=
+  (dfsDepSearch e i).filter (fun x => specV ev x == .err) ++ (if specV ev i == .err then [i] else [])
+
+theorem depLoopE_errs_eq (e : Eng) (ev : EvalRule) (hwf : WF e) (hloc : Local e ev) :
+    ∀ (post pre : List Nat) (s : States) (errs : List Nat), Closed e (pre ++ post) → Sound ev s →
+      (∀ x, x ∈ pre → Settled ev s x) →
+      (depLoopE ev post (s, errs)).2 = errs ++ post.filter (fun x => specV ev x == .err) := by
+  intro post
+  induction post with
+  | nil => intro pre s errs _ _ _; simp [depLoopE]
+  | cons d ds ih =>
+    intro pre s errs hc hs hp
+    have hc' : Closed e ((pre ++ [d]) ++ ds) := by simpa [List.append_assoc] using hc
+    have hdeps : ∀ y, y ∈ deps e d → Settled ev s y := fun y hy => hp y (hc pre d ds rfl y hy)
+    unfold depLoopE
+    cases hl : look s d with
+    | some b =>
+      simp only
+      have hp' : ∀ x, x ∈ pre ++ [d] → Settled ev s x := by
+        intro x hx; rcases List.mem_append.mp hx with h | h
+        · exact hp x h
+        · simp at h; subst h; left; simp [hl]
+      rw [ih (pre ++ [d]) s errs hc' hs hp']
+      have hok : specV ev d = .ok b := hs d b hl
+      simp [List.filter_cons, hok]
+    | none =>
+      simp only
+      have heq := eval_eq_spec e ev hwf hloc s d hs hdeps
+      cases hv : ev d (look s) with
+      | ok b =>
+        simp only
+        have hsd : specV ev d = .ok b := by rw [← heq, hv]
+        have hp' : ∀ x, x ∈ pre ++ [d] → Settled ev ((d, b) :: s) x := by
+          intro x hx; rcases List.mem_append.mp hx with h | h
+          · exact settled_mono (hp x h)
+          · simp at h; subst h; left; simp [look_cons]
+        rw [ih (pre ++ [d]) ((d, b) :: s) errs hc' (sound_cons hs hsd) hp']
+        simp [List.filter_cons, hsd]
+      | err =>
+        simp only
+        have hsd : specV ev d = .err := by rw [← heq, hv]
+        have hp' : ∀ x, x ∈ pre ++ [d] → Settled ev s x := by
+          intro x hx; rcases List.mem_append.mp hx with h | h
+          · exact hp x h
+          · simp at h; subst h; right; exact hsd
+        rw [ih (pre ++ [d]) s (errs ++ [d]) hc' hs hp']
+        simp [List.filter_cons, hsd]
+
+theorem scanStep_errs (e : Eng) (ev : EvalRule) (hwf : WF e) (hloc : Local e ev) (a : Acc) (i : Nat)
+    (hs : Sound ev a.states) : (scanStep e ev a i).errs = a.errs ++ errsOf e ev i := by
+  have hcl := dfs_closed e hwf i
+  have hcl' : Closed e ([] ++ dfsDepSearch e i) := by simpa using hcl.1
+  have herr := depLoopE_errs_eq e ev hwf hloc (dfsDepSearch e i) [] a.states a.errs hcl' hs (by simp)
+  have hfst := depLoopE_fst ev (dfsDepSearch e i) a.states a.errs
+  have hv := (cand_correct e ev hwf hloc a.states i hs).2
+  unfold scanStep errsOf
+  generalize hd : depLoopE ev (dfsDepSearch e i) (a.states, a.errs) = res at herr hfst
+  obtain ⟨s', errs'⟩ := res
+  simp only at hfst herr ⊢
+  subst hfst
+  unfold candVerdict at hv
+  cases hl : look (depLoop ev (dfsDepSearch e i) a.states) i with
+  | some b =>
+    rw [hl] at hv
+    simp only at hv ⊢
+    rw [herr, ← hv]; simp
+  | none =>
+    rw [hl] at hv
+    simp only at hv ⊢
+    cases hr : ev i (look (depLoop ev (dfsDepSearch e i) a.states)) with
+    | ok b => rw [hr] at hv; simp only; rw [herr, ← hv]; simp
+    | err => rw [hr] at hv; simp only; rw [herr, ← hv]; simp [List.append_assoc]
+
+/-- the whole error record, in order -/
+theorem scan_errs_eq (e : Eng) (ev : EvalRule) (hwf : WF e) (hloc : Local e ev) (cands : List Nat) :
+    (scan e ev cands).errs = cands.flatMap (errsOf e ev) := by
+  unfold scan
+  have : ∀ (l done : List Nat) (a : Acc), ScanInv e ev done a →
+      (l.foldl (scanStep e ev) a).errs = a.errs ++ l.flatMap (errsOf e ev) := by
+    intro l
+    induction l with
+    | nil => intro done a _; simp
+    | cons i l ih =>
+      intro done a h
+      have h' := scanStep_inv e ev hwf hloc done a i h
+      rw [List.foldl_cons, ih (done ++ [i]) _ h', scanStep_errs e ev hwf hloc a i h.sound]
+      simp [List.append_assoc]
+  have h0 : ScanInv e ev [] ⟨[], [], []⟩ := ⟨by intro d b h; simp [look] at h, by simp, by simp⟩
+  simpa using this cands [] _ h0
+
 end Gene.Scan
